@@ -20,15 +20,15 @@ def mixed_prec(g, prefix=False):
 def run(tier, seed):
     d = {g.name: g for g in families.g_dir()}
     R = report.Run('C13', tier, seed); cases = []
-    names = ['etf', 'lrece', 'mutual'] if tier == 'quick' else ['etf', 'lrece', 'rrece', 'mutual', 'nullrun', 'd1', 'chain', 'trail']
-    Ls = [3] if tier == 'quick' else [2, 3, 4]
+    names = ['etf', 'lrece', 'mutual'] if tier == 'quick' else ['etf', 'lrece', 'rrece', 'mutual', 'nullrun']
+    Ls = [3] if tier == 'quick' else [2, 3]
     for kind, asserts in ((0, ['accept', 'value', 'ctx_rw']), (1, ['accept', 'value', 'ctx_ro']), (2, ['accept', 'value', 'ctx_ro']), (3, ['accept', 'value', 'ctx_rw'])):
         sel = [(mixed(d[n]), Ls) for n in (names if kind in (0, 3) or tier != 'quick' else names[:1])]
         cp.run_parse_property('C13', tier, seed, sel, asserts, '', cp.STD_OUTSIDE + ['contexts with non-trivial move semantics beyond the 4 categories'], cp.STD_ASSUME,
                               validate_cf=False, wit_every=3, finish=False, R=R, defer=cases, variant='ctx', ctxkind=kind, tag='k%d' % kind)
     # precedence attached after a contextual functor, (rule >>= f)[n], and before it, rule[n] >>= f: the explicit value must survive both spellings
     PR = {g.name: g for g in families.g_prec()}
-    cp.run_parse_property('C13', tier, seed, [(mixed_prec(PR['p_neg']), [3] if tier == 'quick' else [2, 3, 4]), (mixed_prec(PR['p_neg'], prefix=True), [4] if tier == 'quick' else [3, 4]), (mixed_prec(PR['p_expl']), [3]), (mixed_prec(PR['p_expl'], prefix=True), [3, 4])][:2 if tier == 'quick' else 4], ['accept', 'value', 'ctx_rw'], '', [], [],
+    cp.run_parse_property('C13', tier, seed, [(mixed_prec(PR['p_neg']), [3] if tier == 'quick' else [3, 4]), (mixed_prec(PR['p_neg'], prefix=True), [4] if tier == 'quick' else [3, 4]), (mixed_prec(PR['p_expl']), [3]), (mixed_prec(PR['p_expl'], prefix=True), [3])][:2 if tier == 'quick' else 4], ['accept', 'value', 'ctx_rw'], '', [], [],
                           validate_cf=False, wit_every=3, finish=False, R=R, defer=cases, variant='ctx', ctxkind=0, tag='kp')
     # grammars that ignore the context: parse(x) == context_parse(c, x)
     sel = [(d[n], [2] if tier == 'quick' else Ls) for n in names[:2]]
